@@ -71,6 +71,11 @@ CLAIMED = {
   note="Bounded random search (history length, 3 creators, small content alphabet); SDK/bank/store and rapid trusted; no proof of absence.",
   technique=TECH + ": state machine vs reference map, shrinking to JSON replay",
   ref="DESIGN.md §4 C19"),
+ "C20": dict(
+  text="Exhaustive enumeration plus generated values. Descriptors: every file registered by gogoproto under irismod/ and its twin in protoregistry.GlobalFiles (55 files, 321 messages, 772 fields, 4 enums, 22 services, 120 methods, 22 gRPC service descriptors) compared element by element and as whole FileDescriptorProto (file-level options and source info aside), nothing missing on either side or in proto/irismod. Wire: for each of 308 message types values generated from the descriptor (empty, default, maximal, random; nested and Any-typed) go pulsar -> gogo -> bytes -> pulsar and gogo -> pulsar -> bytes -> gogo and must give equal messages and identical bytes (multi-entry maps compared decoded). Signers: every Msg method's request type resolves in the interface registry, declares cosmos.msg.v1.signer on an existing string field, and three independent signer readers return exactly the generated address. A byte-level fuzz target feeds arbitrary bytes to both decoders (accept/reject and canonical re-encoding must agree; native fuzzing in the thorough tier). Two recorded findings are excluded by exactly the affected field / input shape.",
+  note="The enumeration is exhaustive (finite lists); values are bounded random (300-500 per type); gogoproto's unordered map marshalling is compared decoded; protobuf-go, gogoproto and rapid trusted.",
+  technique=TECH + ": exhaustive descriptor enumeration + descriptor-driven round-trip/differential value generation + byte-level fuzzing of both decoders",
+  ref="DESIGN.md §4 C20"),
 }
 
 def main():
